@@ -38,6 +38,10 @@ func (c *pollCtx) Done() <-chan struct{} {
 }
 func (c *pollCtx) Err() error {
 	if c.cancelAt > 0 && c.polls >= c.cancelAt {
+		// a context ends by cancellation or by its deadline: both kinds halt a search (odd k: the deadline kind)
+		if c.cancelAt%2 == 1 {
+			return context.DeadlineExceeded
+		}
 		return context.Canceled
 	}
 	return nil
@@ -153,6 +157,9 @@ func init() {
 			}
 		}
 		var outs []string
+		// ONE context object for all the full-window searches of the script, as a caller that keeps its search.Context would
+		// use it: a search must leave it as it found it (windowed searches get a context of their own)
+		shared := &search.Context{TT: tt}
 		for i++; i < len(a); i++ {
 			it := a[i]
 			switch {
@@ -184,9 +191,12 @@ func init() {
 				cancelAt, _ := strconv.Atoi(f[7])
 				ctx := newPollCtx(cancelAt)
 				sctx := &search.Context{Alpha: alpha, Beta: beta, TT: tt}
+				if alpha == (eval.Score{}) && beta == (eval.Score{}) {
+					sctx = shared
+				}
 				before := obsBoard(z, b)
 				nodes, score, pv, err := ab.Search(ctx, sctx, b, depth)
-				restored := restoredAfterSearch(before, obsBoard(z, b))
+				restored := restoredAfterSearch(before, obsBoard(z, b)) && sctx.Alpha == alpha && sctx.Beta == beta
 				if err != nil {
 					if err == search.ErrHalted {
 						outs = append(outs, fmt.Sprintf("halted restored=%v", restored))
